@@ -62,6 +62,14 @@ pub const GAMUT: [OpParameter; 1] = [
 
 pub fn new(parameters: &RawParameters, ctx: &dyn Context) -> Result<Op, Error> {
     let definition = &parameters.definition;
+
+    // 'pipeline' is not an operator in its own right: given as a plain operator
+    // name it would be its own (only) step, and we would recurse forever
+    if !definition.is_pipeline() {
+        return Err(Error::Syntax(format!(
+            "Not a pipeline: '{definition}'"
+        )));
+    }
     let thesteps = definition.split_into_steps();
     let mut steps = Vec::new();
 
